@@ -144,7 +144,7 @@ class UnitBuild:
         if out_impl:
             text = f"{out_impl} {{\n{text}}}\n"
         s, e = self.out(hdr + text)
-        self.emitted.append(Emitted(key, mode, rel, item.line, s, e, contract=contract, rewrites=counts,
+        self.emitted.append(Emitted(cfg.get("obligation_name", key), mode, rel, item.line, s, e, contract=contract, rewrites=counts,
                                     sha256=_sha(item.text), impl=out_impl))
         if mode == "verify" and not cfg.get("no_canary"):
             self.emit_canary(sig, spec, key, out_impl)
